@@ -15,6 +15,7 @@
 // lattice coordinate in row-major order read through a fresh view (or the get_backend() chain for interpolating stacks).
 // An ill-typed request (the generator never emits one) answers `badtype`.
 // The family of the two field types is chosen at compile time: -DFAM=0..3.
+#include "arr_access.hpp"
 #include <covfie/core/algebra/affine.hpp>
 #include <covfie/core/backend/primitive/array.hpp>
 #include <covfie/core/backend/transformer/affine.hpp>
@@ -150,7 +151,7 @@ template <typename L> struct Tr<backend::affine<backend::linear<L>>> {
     for (std::size_t i = 0; i < N; ++i) for (std::size_t j = 0; j <= N; ++j) if (m(i, j) != m0(i, j)) return "!matrix";
     auto sz = layer(f).get_configuration();
     for (std::size_t d = 0; d < N; ++d) if (sz[d] < 2) return "";
-    if (!store(f).m_ptr) return "";
+    if (vf::arr_null(store(f))) return "";
     typename F::view_t v(f);
     typename F::coordinate_t c; for (std::size_t d = 0; d < N; ++d) c[d] = 0.f;
     auto r = v.at(c);
@@ -180,11 +181,11 @@ using F0 = field<B0>; using F1 = field<B1>;
 struct Slot { std::optional<F0> a; std::optional<F1> b; int type() const { return a ? 0 : b ? 1 : -1; } void reset() { a.reset(); b.reset(); } };
 static Slot slot[NSLOT];
 
-template <typename B> static bool readable(const field<B> & f) { return Tr<B>::store(f).m_ptr != nullptr || Tr<B>::cells(f) == 0; }
+template <typename B> static bool readable(const field<B> & f) { return !vf::arr_null(Tr<B>::store(f)) || Tr<B>::cells(f) == 0; }
 template <typename B> static std::string show_one(const field<B> & f) {
   using T = Tr<B>;
   std::size_t n = T::cells(f);
-  if (!T::store(f).m_ptr && n > 0) return "moved" + std::to_string(n);
+  if (vf::arr_null(T::store(f)) && n > 0) return "moved" + std::to_string(n);
   std::string r = "live[";
   for (std::size_t k = 0; k < n; ++k) { if (k) r += ","; r += T::read(f, k); }
   return r + "]" + T::extra(f);
@@ -217,7 +218,7 @@ template <typename BD, typename BS> static void do_convert(std::optional<field<B
 // view_survives_moveAssign).  `mv` performs the move; the harness dies with a message when the old view disagrees.
 template <typename B, typename Mv> static void move_with_view(field<B> & src, std::optional<field<B>> & dst, Mv && mv) {
   if constexpr (requires(const typename field<B>::view_t & v, const field<B> & f) { Tr<B>::readv(v, f, 0); }) {
-    if (&src != (dst ? &*dst : nullptr) && Tr<B>::store(src).m_ptr && Tr<B>::cells(src) > 0) {
+    if (&src != (dst ? &*dst : nullptr) && !vf::arr_null(Tr<B>::store(src)) && Tr<B>::cells(src) > 0) {
       std::size_t n = Tr<B>::cells(src);
       typename field<B>::view_t v(src);
       mv();
@@ -267,8 +268,8 @@ int main() {
     } else if (op == "dtor") { D.reset(); }
     else if (op == "write") {
       if (!ok(3)) bad = true;
-      else if (D.a) { if (Tr<B0>::store(*D.a).m_ptr && a[1] < Tr<B0>::cells(*D.a)) Tr<B0>::write(*D.a, a[1], a[2]); }
-      else if (D.b) { if (Tr<B1>::store(*D.b).m_ptr && a[1] < Tr<B1>::cells(*D.b)) Tr<B1>::write(*D.b, a[1], a[2]); }
+      else if (D.a) { if (!vf::arr_null(Tr<B0>::store(*D.a)) && a[1] < Tr<B0>::cells(*D.a)) Tr<B0>::write(*D.a, a[1], a[2]); }
+      else if (D.b) { if (!vf::arr_null(Tr<B1>::store(*D.b)) && a[1] < Tr<B1>::cells(*D.b)) Tr<B1>::write(*D.b, a[1], a[2]); }
     } else {
       Slot & S = slot[a[1]];
       int td = D.type(), ts = S.type();
